@@ -111,6 +111,12 @@ def same_object_part(ctx, count):
 
 
 def run(ctx: C.Ctx):
+    from .. import shapes_static, translate_ranking
+    shapes_static.run_with_translation(ctx, translate_ranking, "Ranking", "ranking-pipeline", lambda: _run(ctx),
+                                       "regenerated from SSPOR.fit / predict / get_selected_sensors: tail shuffle = tailShuffle σ m, reads = selectLead n_sensors")
+
+
+def _run(ctx: C.Ctx):
     rng = ctx.rng
     same_object_part(ctx, ctx.scale(40, 500))
     reqs, metas = [], []
